@@ -27,7 +27,7 @@ CONSTANTS
   Dials,      \* dial ids
   Hosts,      \* host names
   AddrsOf,    \* [Hosts -> Seq({"ok","refuse","hang"})]  endpoint kind of every resolved address
-  ResolveOf   \* [Hosts -> {"ok","error","hang","direct"}] behaviour of the resolver for the host;
+  ResolveOf   \* [Hosts -> {"ok","error","hang","flaky","direct"}] behaviour of the resolver for the host;
               \* "direct": no resolution at all (TCPDialer.DisableDNSResolution, one literal address)
 
 VARIABLES
@@ -58,16 +58,22 @@ Init ==
 
 Finish(d, r) == pc' = [pc EXCEPT ![d] = "done"] /\ result' = [result EXCEPT ![d] = r]
 
+ResolveOk(d, h) ==
+  \* the next index of the cache entry; dials that resolve the host concurrently for the
+  \* first time each fill the cache with an entry of their own, so an index may repeat
+  /\ \E k \in 1..(rot[h] + 1) :
+       /\ idx' = [idx EXCEPT ![d] = k] /\ used' = [used EXCEPT ![h] = @ \cup {k}]
+  /\ rot' = [rot EXCEPT ![h] = @ + 1]
+  /\ pc' = [pc EXCEPT ![d] = "try"] /\ UNCHANGED result
+
 Resolve(d) ==
   /\ pc[d] = "new"
   /\ LET h == host[d] IN
-     CASE ResolveOf[h] = "ok" ->
-            \* the next index of the cache entry; dials that resolve the host concurrently for the
-            \* first time each fill the cache with an entry of their own, so an index may repeat
-            /\ \E k \in 1..(rot[h] + 1) :
-                 /\ idx' = [idx EXCEPT ![d] = k] /\ used' = [used EXCEPT ![h] = @ \cup {k}]
-            /\ rot' = [rot EXCEPT ![h] = @ + 1]
-            /\ pc' = [pc EXCEPT ![d] = "try"] /\ UNCHANGED result
+     CASE ResolveOf[h] = "ok" -> ResolveOk(d, h)
+       [] ResolveOf[h] = "flaky" ->     \* answers the first lookup; a refresh of the expired cache entry hangs:
+                                        \* the dial then ends at ITS deadline with the resolver's error
+            \/ ResolveOk(d, h)
+            \/ rot[h] > 0 /\ expired[d] /\ Finish(d, "resolveerr") /\ UNCHANGED <<rot, idx, used>>
        [] ResolveOf[h] = "direct" ->      \* DisableDNSResolution: the address is dialled as it is
             pc' = [pc EXCEPT ![d] = "try"] /\ UNCHANGED <<result, rot, idx, used>>
        [] ResolveOf[h] = "error" -> Finish(d, "resolveerr") /\ UNCHANGED <<rot, idx, used>>
